@@ -393,6 +393,13 @@ def op_load_trajectory_as_striped(ctx, e, ops, N, poison):
         # one dict of md.load arguments per file: the argument list has to be striped exactly like the files
         strides = [t.irange(1, 3) for _ in range(n_files)]
         ctx.hit('striped_per_file_args')
+        if n_files >= 2 and t.flag():
+            # one file listed twice, each time with its own arguments (two strides of one trajectory)
+            i_, j_ = t.perm(n_files)[:2]
+            files[j_], xyz[j_] = files[i_], xyz[i_]
+            if strides[i_] == strides[j_]:
+                strides[j_] = strides[i_] % 3 + 1
+            ctx.hit('striped_same_file_twice')
     else:
         strides = [stride] * n_files
     ctx.fp('trj', N, tuple(len(x) for x in xyz), n_atoms, tuple(strides), per_file)
